@@ -111,19 +111,16 @@ class EvalNode(ConfigScalar(str)):
         code_hash = hashlib.md5(str(self).encode('utf-8')).hexdigest()
         eval_module_name = f'{EvalNode._top_namespace_module_name}.{str(path).replace(".", "_")}_0x{code_hash}'
 
-        from_module = False
-        if self.persistent_namespace and eval_module_name in sys.modules:
-            gbls = sys.modules[eval_module_name].__dict__
-            from_module = True
-        else:
-            gbls = {
-                'ayns': Bunch({
-                    'ctx': ctx,
-                    'cfg': ctx.ecfg
-                })
-            }
-            gbls.update(ctx.get_eval_symbols())
-            gbls.update({ '__name__': eval_module_name, '__file__': self._source_file })
+        # always start from a fresh namespace: the module registered by an earlier evaluation holds the config,
+        # the context and the symbols of that evaluation and must not leak into this one
+        gbls = {
+            'ayns': Bunch({
+                'ctx': ctx,
+                'cfg': ctx.ecfg
+            })
+        }
+        gbls.update(ctx.get_eval_symbols())
+        gbls.update({ '__name__': eval_module_name, '__file__': self._source_file })
 
         gbls[EvalNode._globals_wrapper_name] = GlobalsWrapper(gbls, ctx.ecfg, ctx, self, path)
 
@@ -160,7 +157,7 @@ class EvalNode(ConfigScalar(str)):
 
         del gbls[EvalNode._globals_wrapper_name]
 
-        if len(lines) > 1 and self.persistent_namespace and not from_module:
+        if len(lines) > 1 and self.persistent_namespace:
             eval_node_module = types.ModuleType(eval_module_name, 'Dynamic module to evaluate awesomeyaml !eval node')
             eval_node_module.__dict__.update(gbls)
             sys.modules[eval_module_name] = eval_node_module
